@@ -101,7 +101,7 @@ def check_decl(dc, st, tier, only=None):
     if only is not None:
         check_value(dc, st, ir.val_fromjson(only['pv']), only['how'])
         return
-    budget = 800 if tier == 'quick' else 4000
+    budget = ea.budget_for(dc, tier)
     seen = set()
     for raw, r in ea.inputs_for(dc, budget):
         # rejected inputs are parsed too: a failed parse in between must not disturb the round trips that follow
